@@ -25,11 +25,11 @@ TICK = 1000       # ticks per SI unit in the generated comparisons
 
 CFG = {
     "quick": dict(BaseMags={0, 1000, 1000000, 500000000}, Rels={"default", "r100", "rmil", "r0"}, Abss={"none", "a1", "a50"},
-                  Spellings={"kilo", "milli"}, Families={"boundary", "tiny", "mass", "complex", "dimension", "vector"},
+                  Spellings={"kilo", "milli"}, Families={"boundary", "tiny", "mass", "complex", "dimension", "vector", "vecmix"},
                   TickExps={40 - 13, 40 - 19, 40 - 30}, MaxVec=3),
     "thorough": dict(BaseMags={0, 1, 1000, 7919, 1000000, 31415926, 500000000}, Rels={"default", "r100", "rmil", "r5", "r0"},
                      Abss={"none", "a0", "a1", "a50"}, Spellings={"kilo", "milli"},
-                     Families={"boundary", "tiny", "mass", "complex", "dimension", "vector"},
+                     Families={"boundary", "tiny", "mass", "complex", "dimension", "vector", "vecmix"},
                      TickExps={40 - 10, 40 - 13, 40 - 16, 40 - 19, 40 - 24, 40 - 30}, MaxVec=4),
 }
 INVARIANTS = ["TypeOK", "Disjoint", "SymmetricWithoutAbs", "UnitIndependent", "ScaleIndependent", "DimensionGuard", "Monotone", "SharpForReals",
@@ -105,7 +105,7 @@ def make_comparisons(case, tick=TICK):
     r = _real()
     kw = kwargs_of(case, tick)
     calls = []
-    if case["fam"] == "vector":
+    if case["fam"] in ("vector", "vecmix"):
         lv = r["QuantityVector"]([build_operand(o, tick) for o in case["l"]])
         rv = r["QuantityVector"]([build_operand(o, tick) for o in case["r"]])
         kwv = dict(kw)
